@@ -67,7 +67,8 @@ type Topology struct {
 	Errors    []ClusterExec   // error replies sent (redirects and others)
 	// Misdirected: commands an importing node served under ASKING for keys that had not been moved to it
 	Misdirected     []string
-	MisdirectedKeys []string // the key of each entry
+	MisdirectedKeys []string        // the key of each entry
+	Asked           map[string]bool // keys an owner has answered ASK for at some time
 	gseq            int
 }
 
@@ -185,6 +186,12 @@ func (c *clusterNode) route(s *Server, ss *Session, name string, args [][]byte) 
 				return c.redirect("tryagain", resp.Err("TRYAGAIN Multiple keys request during rehashing of slot"))
 			}
 			if moved > 0 {
+				if t.Asked == nil {
+					t.Asked = map[string]bool{}
+				}
+				for _, k := range keys {
+					t.Asked[string(k)] = true
+				}
 				return c.redirect("ask", resp.Err(fmt.Sprintf("ASK %d %s", slot, t.Nodes[imp].Addr)))
 			}
 		}
@@ -194,7 +201,7 @@ func (c *clusterNode) route(s *Server, ss *Session, name string, args [][]byte) 
 		// an importing node serves whatever arrives under ASKING; it cannot know whether the key has been moved. A client
 		// may send ASKING only for the command the owner answered ASK to - i.e. for keys that live here already
 		for _, k := range keys {
-			if !t.Moved[string(k)] {
+			if !t.Moved[string(k)] && !t.Asked[string(k)] { // (Asked: redirected once; the slot may have moved on and back meanwhile)
 				t.MisdirectedKeys = append(t.MisdirectedKeys, string(k))
 				t.Misdirected = append(t.Misdirected, fmt.Sprintf("node %d (importing slot %d) served %s %q under ASKING although the key still lives on node %d, which never redirected it", c.self, slot, name, k, owner))
 				break
